@@ -186,6 +186,9 @@ class BalWorld(object):
       if self.lb._total != tot:
         REC.violation('C04', 'aperture_total_mismatch',
                       'aperture outstanding total %d, %d requests actually outstanding' % (self.lb._total, tot))
+        REC.violation('C06', 'load_tracking_drift',
+                      'the aperture tracks %d outstanding requests, %d are actually outstanding: its load average no longer follows the traffic' % (
+                        self.lb._total, tot), {'sign': 'high' if self.lb._total > tot else 'low'})
         self.lb._total = tot
 
   # -- settle ----------------------------------------------------------------
